@@ -557,6 +557,13 @@ class Evaluator:
     def _assign(self, t: ast.AST, val: Any, env: Dict[str, Any], fn: FuncInfo, depth: int):
         if isinstance(t, ast.Name):
             env[t.id] = val
+        elif isinstance(t, (ast.Tuple, ast.List)) and isinstance(val, TAlt) and isinstance(val.b, TRaise):
+            self._assign(t, val.a, env, fn, depth)          # the other alternative does not come back
+        elif isinstance(t, (ast.Tuple, ast.List)) and isinstance(val, TAlt) and isinstance(val.a, TRaise):
+            self._assign(t, val.b, env, fn, depth)
+        elif isinstance(t, (ast.Tuple, ast.List)) and isinstance(val, TAlt) and isinstance(val.b, TAlt) and \
+                isinstance(val.b.b, TRaise):
+            self._assign(t, TAlt(val.cond, val.a, val.b.a), env, fn, depth)
         elif isinstance(t, (ast.Tuple, ast.List)) and isinstance(val, TAlt) and \
                 all(isinstance(x, TList) and len(x.items) == len(t.elts) and
                     all(not isinstance(y, (RepL, AltL)) for y in x.items) for x in (val.a, val.b)):
@@ -1162,10 +1169,9 @@ class Evaluator:
         base = self.eval(e.value, env, fn, depth)
         if isinstance(base, tuple) and base and base[0] == 'dict':
             k = self.eval(e.slice, env, fn, depth)
-            if isinstance(k, (TEnum, TConst)) or (isinstance(k, TStr) and k.is_const()):
-                for kk, vv in base[1]:
-                    if repr(kk) == repr(k):
-                        return vv
+            r = self.dict_lookup(base[1], k, None)
+            if r is not None:
+                return r
             return self.opaque('lookup in a constant table with a key that is not a constant')
         if isinstance(base, TList) and isinstance(e.slice, ast.Constant) and isinstance(e.slice.value, int):
             i = e.slice.value
@@ -1187,6 +1193,13 @@ class Evaluator:
             if isinstance(e.slice, ast.Slice):
                 return Sym(base.root, base.path + (f'[{ast.unparse(e.slice)}]',), base.typ)
             return Sym(base.root, base.path + (f'[{ast.unparse(e.slice)}]',), TypeEnv.elem_type(base.typ))
+        if isinstance(base, TStr) and base.const() is not None:
+            try:
+                idx = ast.literal_eval(ast.unparse(e.slice)) if not isinstance(e.slice, ast.Slice) else slice(
+                    *(None if x is None else ast.literal_eval(ast.unparse(x)) for x in (e.slice.lower, e.slice.upper, e.slice.step)))
+                return lit(base.const()[idx])
+            except (ValueError, IndexError, SyntaxError, TypeError):
+                pass
         if isinstance(base, TStr) and len(base.parts) == 1 and isinstance(base.parts[0], Hole):
             h = base.parts[0]
             return TStr([Hole(h.sym, (h.transform + f'[{ast.unparse(e.slice)}]'))])
@@ -1359,6 +1372,20 @@ class Evaluator:
             callee = self.eval(f, env, fn, depth)
         args = [self.eval(a, env, fn, depth) for a in e.args]
         kwargs = {k.arg: self.eval(k.value, env, fn, depth) for k in e.keywords if k.arg}
+        return self.apply(callee, args, kwargs, e, env, fn, depth)
+
+    def apply(self, callee: Any, args: list, kwargs: dict, e: ast.Call, env, fn, depth) -> Any:
+        prog = self.prog
+        f = e.func
+        if isinstance(callee, TAlt):
+            # a callable chosen by a condition (e.g. taken out of a table keyed by an enum): either one is called
+            a = self.apply(callee.a, args, kwargs, e, env, fn, depth) if callee.a is not TNone else TRaise('call of None')
+            b = self.apply(callee.b, args, kwargs, e, env, fn, depth) if callee.b is not TNone else TRaise('call of None')
+            if isinstance(a, TRaise):
+                return b
+            if isinstance(b, TRaise):
+                return a
+            return self._alt(callee.cond, a, b)
         if isinstance(callee, TFunc):
             native = self.native(callee.fn, args, kwargs, depth)
             if native is not NotImplemented:
@@ -1407,6 +1434,8 @@ class Evaluator:
             return args[0] if isinstance(args[0], TList) else TList(self.as_items(args[0]))
         if name == 'isinstance':
             if len(args) == 2 and isinstance(args[0], Sym) and isinstance(args[1], tuple) and args[1] and args[1][0] == 'class':
+                if strip_opt(args[0].typ) == ('cls', args[1][1].fq) and args[0].typ[0] != 'opt':
+                    return TRUE         # annotated with exactly that class (callers hand what the annotation says: C13 / C15)
                 return Cond('isinstance', (args[0], args[1][1].name))
             return Cond('opaque', ('isinstance',))
         if name in ('sorted', 'reversed') and args and not kwargs and isinstance(args[0], (Sym, TList)):
@@ -1419,7 +1448,36 @@ class Evaluator:
             return args[0]
         return self.opaque(f'builtin {name}')
 
+    def dict_lookup(self, pairs: list, k: Any, default: Any) -> Any:
+        """lookup in a constant table: by a constant key, or by a symbolic value of the enum that the keys are members of
+        (a chain of alternatives on `k == <member>`; when the table covers every member there is no default case)"""
+        if isinstance(k, (TEnum, TConst)) or (isinstance(k, TStr) and k.is_const()):
+            for kk, vv in pairs:
+                if repr(kk) == repr(k):
+                    return vv
+            return default
+        if isinstance(k, Sym) and pairs and all(isinstance(kk, TEnum) for kk, _v in pairs) and \
+                len({kk.cls.fq for kk, _v in pairs}) == 1 and strip_opt(k.typ) in (('cls', pairs[0][0].cls.fq), ANY):
+            members = set(pairs[0][0].cls.enum_members)
+            covered = {kk.member for kk, _v in pairs}
+            acc = default if covered != members or default is not None and False else None
+            items = list(pairs)
+            if covered == members:
+                acc = items[-1][1]
+                items = items[:-1]
+            else:
+                acc = default
+            for kk, vv in reversed(items):
+                acc = self._alt(Cond('eq', (k, self.cond_leaf(kk))), vv, acc)
+            return acc
+        return None
+
     def method_call(self, recv: Any, meth: str, e: ast.Call, env, fn, depth) -> Any:
+        if isinstance(recv, tuple) and recv and recv[0] == 'dict' and meth == 'get' and 1 <= len(e.args) <= 2:
+            k = self.eval(e.args[0], env, fn, depth)
+            dflt = self.eval(e.args[1], env, fn, depth) if len(e.args) == 2 else TNone
+            r = self.dict_lookup(recv[1], k, dflt)
+            return r if r is not None else self.opaque('lookup in a constant table with a key that is not a constant')
         if isinstance(recv, tuple) and recv and recv[0] == 'groupdict':
             if meth == 'get' and e.args:
                 k = self.eval(e.args[0], env, fn, depth)
